@@ -32,7 +32,7 @@ NAMES = ['p', 'div', 'span', 'b', 'li']
 KINDS = ['text', 'text', 'text', 'blank', 'comment', 'cdata', 'pi', 'doctype', 'decl']
 
 
-def gen_tree(rng, iframes, foreign=None, look_alikes=False):
+def gen_tree(rng, iframes, foreign=None, look_alikes=False, api_case=False):
     """foreign: None, 'markup' (html5lib: <svg><iframe>text</iframe></svg> stays in the SVG namespace) or 'api' (explicit namespaces)."""
     budget = [rng.randint(2, 16)]
     NS_SVG = 'http://www.w3.org/2000/svg'
@@ -68,11 +68,14 @@ def gen_tree(rng, iframes, foreign=None, look_alikes=False):
         nm = rng.choice(NAMES + (['iframe'] if iframes and depth > 0 and rng.random() < .3 else []))
         if look_alikes and depth > 0 and rng.random() < .2:
             nm = rng.choice(['IFrame', 'IFRAME', 'Iframe'])       # XML is case-sensitive: these are ordinary elements
+        real = nm == 'iframe'
+        if real and api_case and rng.random() < .5:
+            nm = rng.choice(['IFRAME', 'IFrame'])                  # HTML names are case-insensitive: still an iframe (API-made)
         e = E(nm)
         if rng.random() < .2:
             e.attrs['class'] = ['x']
         e.kids += filler()
-        if nm == 'iframe':
+        if real:
             inner = E('html', {}, [E('body', {}, filler() + [el(depth + 1)] + filler())]) if budget[0] > 0 else E('html')
             e.kids = ([inner] + (filler() if rng.random() < .3 else [])) if rng.random() < .85 else e.kids + [inner]
             return e
@@ -166,7 +169,7 @@ def run_unit(u):
         foreign = 'markup' if how == 'html5lib' and rng.random() < .5 else None
         if how == 'api' and rng.random() < .2:
             foreign = 'api'
-        root = gen_tree(rng, iframes and not foreign, foreign)
+        root = gen_tree(rng, iframes and not foreign, foreign, api_case=how == 'api')
         if foreign:
             bump('foreign-iframe:' + how)
         xhtml = how == 'xml' and rng.random() < .35
